@@ -19,10 +19,37 @@
                 invariant
                     crate::is_tail(bytes@, bytes0), crate::frame::tail_base(bytes0), bytes@.len() <= bytes0.len(),
                     curr_len <= usize::MAX,
+        //@ tag tags.bookkeeping C13
+                    actual_tags@ =~= seen,
+                    required_tags@ =~= Set::<u16>::empty().difference(seen),
+        //@ tag tags.loop.decreases C02
                 decreases bytes@.len() + (if curr_len != bytes@.len() { 1nat } else { 0nat }),
         //@ entry
             let ghost bytes0 = bytes@;
+            let ghost mut seen: Set<u16> = Set::<u16>::empty();
             proof { lemma_slice_len_le_isize_max(bytes); crate::frame::lemma_tail_base(bytes0); }
+        //@ before (tlv,bytes)=<
+        //@ tag tags.no_second_dispatch.tlv C13
+            proof { assert(!seen.contains(6u16)); seen = seen.insert(6u16) ; }
+        //@ before returnErr(zvt_builder::ZVTError::DuplicateTag(zvt_builder::Tag(6u16)
+        //@ tag tags.duplicate_error_is_true.tlv C13
+            proof { assert(seen.contains(6u16)) ; }
+        //@ before letmutas_vec
+            let ghost req_left = required_tags@;
+        //@ before returnErr(zvt_builder::ZVTError::MissingRequiredTags
+        //@ tag tags.missing_names_all C13
+            proof {
+                assert(req_left =~= Set::<u16>::empty().difference(seen));
+                assert forall|i: int| 0 <= i < as_vec@.len() implies Set::<u16>::empty().contains((#[trigger] as_vec@[i]).0) && !seen.contains(as_vec@[i].0) by {
+                    assert(req_left.contains(as_vec@[i].0));
+                }
+                assert forall|t: u16| Set::<u16>::empty().contains(t) && !seen.contains(t) implies exists|i: int| 0 <= i < as_vec@.len() && (#[trigger] as_vec@[i]).0 == t by {
+                    assert(req_left.contains(t));
+                }
+            }
+        //@ tail
+        //@ tag tags.ok_only_if_all_mandatory C13
+            proof { assert(Set::<u16>::empty().subset_of(seen)); }
         //@ end
         proof fn law_dec_bounds(b: Seq<u8>) {}
         proof fn law_dec_frame(b: Seq<u8>, s: Seq<u8>) {}
@@ -57,10 +84,31 @@
                 invariant
                     crate::is_tail(bytes@, bytes0), crate::frame::tail_base(bytes0), bytes@.len() <= bytes0.len(),
                     curr_len <= usize::MAX,
+        //@ tag tags.bookkeeping C13
+                    actual_tags@ =~= seen,
+                    required_tags@ =~= Set::<u16>::empty().difference(seen),
+        //@ tag tags.loop.decreases C02
                 decreases bytes@.len() + (if curr_len != bytes@.len() { 1nat } else { 0nat }),
         //@ entry
             let ghost bytes0 = bytes@;
+            let ghost mut seen: Set<u16> = Set::<u16>::empty();
             proof { lemma_slice_len_le_isize_max(bytes); crate::frame::lemma_tail_base(bytes0); }
+        //@ before letmutas_vec
+            let ghost req_left = required_tags@;
+        //@ before returnErr(zvt_builder::ZVTError::MissingRequiredTags
+        //@ tag tags.missing_names_all C13
+            proof {
+                assert(req_left =~= Set::<u16>::empty().difference(seen));
+                assert forall|i: int| 0 <= i < as_vec@.len() implies Set::<u16>::empty().contains((#[trigger] as_vec@[i]).0) && !seen.contains(as_vec@[i].0) by {
+                    assert(req_left.contains(as_vec@[i].0));
+                }
+                assert forall|t: u16| Set::<u16>::empty().contains(t) && !seen.contains(t) implies exists|i: int| 0 <= i < as_vec@.len() && (#[trigger] as_vec@[i]).0 == t by {
+                    assert(req_left.contains(t));
+                }
+            }
+        //@ tail
+        //@ tag tags.ok_only_if_all_mandatory C13
+            proof { assert(Set::<u16>::empty().subset_of(seen)); }
         //@ end
         proof fn law_dec_bounds(b: Seq<u8>) {}
         proof fn law_dec_frame(b: Seq<u8>, s: Seq<u8>) {}
@@ -95,10 +143,37 @@
                 invariant
                     crate::is_tail(bytes@, bytes0), crate::frame::tail_base(bytes0), bytes@.len() <= bytes0.len(),
                     curr_len <= usize::MAX,
+        //@ tag tags.bookkeeping C13
+                    actual_tags@ =~= seen,
+                    required_tags@ =~= Set::<u16>::empty().difference(seen),
+        //@ tag tags.loop.decreases C02
                 decreases bytes@.len() + (if curr_len != bytes@.len() { 1nat } else { 0nat }),
         //@ entry
             let ghost bytes0 = bytes@;
+            let ghost mut seen: Set<u16> = Set::<u16>::empty();
             proof { lemma_slice_len_le_isize_max(bytes); crate::frame::lemma_tail_base(bytes0); }
+        //@ before (tlv,bytes)=<
+        //@ tag tags.no_second_dispatch.tlv C13
+            proof { assert(!seen.contains(6u16)); seen = seen.insert(6u16) ; }
+        //@ before returnErr(zvt_builder::ZVTError::DuplicateTag(zvt_builder::Tag(6u16)
+        //@ tag tags.duplicate_error_is_true.tlv C13
+            proof { assert(seen.contains(6u16)) ; }
+        //@ before letmutas_vec
+            let ghost req_left = required_tags@;
+        //@ before returnErr(zvt_builder::ZVTError::MissingRequiredTags
+        //@ tag tags.missing_names_all C13
+            proof {
+                assert(req_left =~= Set::<u16>::empty().difference(seen));
+                assert forall|i: int| 0 <= i < as_vec@.len() implies Set::<u16>::empty().contains((#[trigger] as_vec@[i]).0) && !seen.contains(as_vec@[i].0) by {
+                    assert(req_left.contains(as_vec@[i].0));
+                }
+                assert forall|t: u16| Set::<u16>::empty().contains(t) && !seen.contains(t) implies exists|i: int| 0 <= i < as_vec@.len() && (#[trigger] as_vec@[i]).0 == t by {
+                    assert(req_left.contains(t));
+                }
+            }
+        //@ tail
+        //@ tag tags.ok_only_if_all_mandatory C13
+            proof { assert(Set::<u16>::empty().subset_of(seen)); }
         //@ end
         proof fn law_dec_bounds(b: Seq<u8>) {}
         proof fn law_dec_frame(b: Seq<u8>, s: Seq<u8>) {}
@@ -133,10 +208,37 @@
                 invariant
                     crate::is_tail(bytes@, bytes0), crate::frame::tail_base(bytes0), bytes@.len() <= bytes0.len(),
                     curr_len <= usize::MAX,
+        //@ tag tags.bookkeeping C13
+                    actual_tags@ =~= seen,
+                    required_tags@ =~= set![6u16].difference(seen),
+        //@ tag tags.loop.decreases C02
                 decreases bytes@.len() + (if curr_len != bytes@.len() { 1nat } else { 0nat }),
         //@ entry
             let ghost bytes0 = bytes@;
+            let ghost mut seen: Set<u16> = Set::<u16>::empty();
             proof { lemma_slice_len_le_isize_max(bytes); crate::frame::lemma_tail_base(bytes0); }
+        //@ before (tlv,bytes)=<
+        //@ tag tags.no_second_dispatch.tlv C13
+            proof { assert(!seen.contains(6u16)); seen = seen.insert(6u16) ; }
+        //@ before returnErr(zvt_builder::ZVTError::DuplicateTag(zvt_builder::Tag(6u16)
+        //@ tag tags.duplicate_error_is_true.tlv C13
+            proof { assert(seen.contains(6u16)) ; }
+        //@ before letmutas_vec
+            let ghost req_left = required_tags@;
+        //@ before returnErr(zvt_builder::ZVTError::MissingRequiredTags
+        //@ tag tags.missing_names_all C13
+            proof {
+                assert(req_left =~= set![6u16].difference(seen));
+                assert forall|i: int| 0 <= i < as_vec@.len() implies set![6u16].contains((#[trigger] as_vec@[i]).0) && !seen.contains(as_vec@[i].0) by {
+                    assert(req_left.contains(as_vec@[i].0));
+                }
+                assert forall|t: u16| set![6u16].contains(t) && !seen.contains(t) implies exists|i: int| 0 <= i < as_vec@.len() && (#[trigger] as_vec@[i]).0 == t by {
+                    assert(req_left.contains(t));
+                }
+            }
+        //@ tail
+        //@ tag tags.ok_only_if_all_mandatory C13
+            proof { assert(!set![6u16].difference(seen).contains(6u16)); assert(set![6u16].subset_of(seen)); }
         //@ end
         proof fn law_dec_bounds(b: Seq<u8>) {}
         proof fn law_dec_frame(b: Seq<u8>, s: Seq<u8>) {}
@@ -171,10 +273,31 @@
                 invariant
                     crate::is_tail(bytes@, bytes0), crate::frame::tail_base(bytes0), bytes@.len() <= bytes0.len(),
                     curr_len <= usize::MAX,
+        //@ tag tags.bookkeeping C13
+                    actual_tags@ =~= seen,
+                    required_tags@ =~= Set::<u16>::empty().difference(seen),
+        //@ tag tags.loop.decreases C02
                 decreases bytes@.len() + (if curr_len != bytes@.len() { 1nat } else { 0nat }),
         //@ entry
             let ghost bytes0 = bytes@;
+            let ghost mut seen: Set<u16> = Set::<u16>::empty();
             proof { lemma_slice_len_le_isize_max(bytes); crate::frame::lemma_tail_base(bytes0); }
+        //@ before letmutas_vec
+            let ghost req_left = required_tags@;
+        //@ before returnErr(zvt_builder::ZVTError::MissingRequiredTags
+        //@ tag tags.missing_names_all C13
+            proof {
+                assert(req_left =~= Set::<u16>::empty().difference(seen));
+                assert forall|i: int| 0 <= i < as_vec@.len() implies Set::<u16>::empty().contains((#[trigger] as_vec@[i]).0) && !seen.contains(as_vec@[i].0) by {
+                    assert(req_left.contains(as_vec@[i].0));
+                }
+                assert forall|t: u16| Set::<u16>::empty().contains(t) && !seen.contains(t) implies exists|i: int| 0 <= i < as_vec@.len() && (#[trigger] as_vec@[i]).0 == t by {
+                    assert(req_left.contains(t));
+                }
+            }
+        //@ tail
+        //@ tag tags.ok_only_if_all_mandatory C13
+            proof { assert(Set::<u16>::empty().subset_of(seen)); }
         //@ end
         proof fn law_dec_bounds(b: Seq<u8>) {}
         proof fn law_dec_frame(b: Seq<u8>, s: Seq<u8>) {}
@@ -209,10 +332,37 @@
                 invariant
                     crate::is_tail(bytes@, bytes0), crate::frame::tail_base(bytes0), bytes@.len() <= bytes0.len(),
                     curr_len <= usize::MAX,
+        //@ tag tags.bookkeeping C13
+                    actual_tags@ =~= seen,
+                    required_tags@ =~= Set::<u16>::empty().difference(seen),
+        //@ tag tags.loop.decreases C02
                 decreases bytes@.len() + (if curr_len != bytes@.len() { 1nat } else { 0nat }),
         //@ entry
             let ghost bytes0 = bytes@;
+            let ghost mut seen: Set<u16> = Set::<u16>::empty();
             proof { lemma_slice_len_le_isize_max(bytes); crate::frame::lemma_tail_base(bytes0); }
+        //@ before (tlv,bytes)=<
+        //@ tag tags.no_second_dispatch.tlv C13
+            proof { assert(!seen.contains(6u16)); seen = seen.insert(6u16) ; }
+        //@ before returnErr(zvt_builder::ZVTError::DuplicateTag(zvt_builder::Tag(6u16)
+        //@ tag tags.duplicate_error_is_true.tlv C13
+            proof { assert(seen.contains(6u16)) ; }
+        //@ before letmutas_vec
+            let ghost req_left = required_tags@;
+        //@ before returnErr(zvt_builder::ZVTError::MissingRequiredTags
+        //@ tag tags.missing_names_all C13
+            proof {
+                assert(req_left =~= Set::<u16>::empty().difference(seen));
+                assert forall|i: int| 0 <= i < as_vec@.len() implies Set::<u16>::empty().contains((#[trigger] as_vec@[i]).0) && !seen.contains(as_vec@[i].0) by {
+                    assert(req_left.contains(as_vec@[i].0));
+                }
+                assert forall|t: u16| Set::<u16>::empty().contains(t) && !seen.contains(t) implies exists|i: int| 0 <= i < as_vec@.len() && (#[trigger] as_vec@[i]).0 == t by {
+                    assert(req_left.contains(t));
+                }
+            }
+        //@ tail
+        //@ tag tags.ok_only_if_all_mandatory C13
+            proof { assert(Set::<u16>::empty().subset_of(seen)); }
         //@ end
         proof fn law_dec_bounds(b: Seq<u8>) {}
         proof fn law_dec_frame(b: Seq<u8>, s: Seq<u8>) {}
